@@ -551,7 +551,8 @@ def run(ctx):
     errors, mismatches, failures, raw_failing = [], [], [], []
     hist = {"terminal": {}, "steps_per_session": {}, "op": {}, "layout_nodes": {}, "widget_kinds": {},
             "verdict": {}, "views_on_screen": {}, "deletes": {"all": 0, "by_z": 0, "cursor": 0},
-            "redraws_with_vanished_views": 0, "non_composite_canvases": 0}
+            "redraws_with_vanished_views": 0, "non_composite_canvases": 0, "image_lines_in_canvases": 0,
+            "image_lines_written": 0, "z_freed": 0, "z_reused": 0, "z_exhausted": 0}
     if ctx.replay:
         cases = [ctx.replay["replay"]["case"]]
     else:
@@ -587,6 +588,7 @@ def run(ctx):
                     if f'["{node}"' in json.dumps(st["layout"]):
                         hist["layout_nodes"][node] = hist["layout_nodes"].get(node, 0) + 1
         prev_views = None
+        prev_free = set()
         nontrivial = False
         for s in r["steps"]:
             if s["op"] in ("draw", "draw_bad", "redraw"):
@@ -599,6 +601,14 @@ def run(ctx):
                     hist["redraws_with_vanished_views"] += 1
                     nontrivial = True
                 prev_views = cur
+            hist["image_lines_in_canvases"] += sum(row.count("a=T") + row.count("File=") for row in s.get("rows", []))
+            hist["image_lines_written"] += s["out"].count("a=T") + s["out"].count("File=")
+            hist["z_freed"] += len(s["freed"])
+            if s["op"] == "new" and s["alloc"][0] == "ok" and s["alloc"][3] is not None and s["alloc"][3] in prev_free:
+                hist["z_reused"] += 1
+            if s["op"] == "new" and s["alloc"][0] == "raised":
+                hist["z_exhausted"] += 1
+            prev_free = set(s["free_set"])
             hist["deletes"]["all"] += s["out"].count("a=d,d=A")
             hist["deletes"]["by_z"] += s["out"].count("a=d,d=Z")
             hist["deletes"]["cursor"] += s["out"].count("a=d,d=C")
